@@ -769,3 +769,42 @@ def _mk_dispatch(cls, kind):
 for _cls, _kind in SUBCLASSES:
     if EXT.TLSExtension._universalExtensions.get(_cls().extType) is _cls:
         _mk_dispatch(_cls, _kind)
+
+
+# =======================================================================================================
+# NewSessionTicket1_0 (RFC 5077 3.3): ticket_lifetime_hint(4) ticket<0..2^16-1>
+# =======================================================================================================
+from contracts.messages_simple import body_at, p_consumed, p_mono_exc, PMOD, remaining as m_remaining, p_ok as m_p_ok, _roundtrip, _eq_fields
+
+NST10 = T.obj(MSG.NewSessionTicket1_0, handshakeType=T.const(MSG.NewSessionTicket1_0().handshakeType),
+              ticket_lifetime=T.int(), ticket=T.bytes())
+NST_T = MSG.NewSessionTicket1_0().handshakeType
+
+
+def nst10_fits(ns):
+    return S.And(ns.f(ns.self, 'ticket_lifetime') >= 0, ns.f(ns.self, 'ticket_lifetime') < (1 << 32),
+                 S.len_(ns.f(ns.self, 'ticket')) < 65536)
+
+
+contract(M + 'NewSessionTicket1_0.write', params={'self': NST10}, result=T.bytes(),
+         ensures=lambda ns: (lambda lt, tk: S.And(
+             nst10_fits(ns),
+             S.seq_eq(ns.result, S.cat(S.byte(NST_T), S.be(6 + S.len_(tk), 3), S.be(lt, 4), S.be(S.len_(tk), 2), tk)),
+             S.len_(ns.result) == 10 + S.len_(tk), only_modifies(ns)))(ns.f(ns.self, 'ticket_lifetime'), ns.f(ns.self, 'ticket')),
+         raises={ValueError: ('iff', lambda ns: S.Not(nst10_fits(ns)))}, prop=PROP,
+         doc='04 || uint24 len || uint32 lifetime || uint16 len || ticket; ValueError iff a field does not fit')
+
+contract(M + 'NewSessionTicket1_0.parse', params={'self': NST10, 'parser': PARSER},
+         requires=lambda ns: p_inv_of(ns, ns.parser), result=T.opaque(),
+         modifies=[('self', 'ticket_lifetime'), ('self', 'ticket'), ('parser', 'index'), ('parser', 'lengthCheck'), ('parser', 'indexCheck')],
+         ensures=lambda ns: (lambda n: S.And(
+             hs_len(ns.old) == 6 + n, ns.f(ns.self, 'ticket_lifetime') == rd(ns.old, 3, 4),
+             S.seq_eq(ns.f(ns.self, 'ticket'), body_at(ns.old, 9, n)), S.len_(ns.f(ns.self, 'ticket')) == n,
+             p_consumed(ns, 9 + n, ['ticket_lifetime', 'ticket'])))(rd(ns.old, 7, 2)),
+         raises={DecodeError: ('iff', lambda ns: S.Or(m_remaining(ns) < 9,
+                                                      S.And(m_remaining(ns) >= 9,
+                                                            S.Or(m_remaining(ns) < 9 + rd(ns, 7, 2), hs_len(ns) != 6 + rd(ns, 7, 2)))))},
+         exc_ensures=p_mono_exc(['ticket_lifetime', 'ticket']), prop=PROP,
+         doc='uint24 length must equal 6 + the uint16 ticket length exactly; DecodeError iff truncated or the lengths disagree')
+
+_roundtrip('NewSessionTicket1_0', NST10, NST10, 'NewSessionTicket1_0', 1, _eq_fields('ticket_lifetime', 'ticket'))
